@@ -30,6 +30,12 @@ type Script struct {
 	IdleAt      []int  // after this many stream bytes stay idle for IdleMs before continuing
 	IdleMs      int
 	EOFAfter    bool   // close the connection after the whole stream has been sent
+	RefuseFirst int    // answer the first N PSYNC attempts of all with -LOADING
+	// RdbGate (when not nil): every full resynchronisation stops after RdbGateAt bytes of the RDB until a value can be
+	// received from the channel; the events "rdb-start" (before the first RDB byte) and "rdb-end" (before the last
+	// part of it is written) are reported.
+	RdbGate   chan struct{}
+	RdbGateAt int
 }
 
 type Event struct {
@@ -54,7 +60,7 @@ type Server struct {
 	conns   []net.Conn
 }
 
-func New(sc Script, sink func(Event)) *Server { return &Server{sc: sc, sink: sink} }
+func New(sc Script, sink func(Event)) *Server { return &Server{sc: sc, sink: sink, refuse: sc.RefuseFirst} }
 
 func (s *Server) Listen() (string, error) {
 	ln, err := net.Listen("tcp", "127.0.0.1:0")
@@ -229,6 +235,7 @@ func (s *Server) serve(c net.Conn, id int) {
 			}
 			s.mu.Unlock()
 			if refuse {
+				s.emit(Event{Kind: "refused", Conn: id})
 				c.Write([]byte("-LOADING Redis is loading the dataset in memory\r\n"))
 				time.Sleep(5 * time.Millisecond)
 				return // and hang up: the replica has to come back with a new connection
@@ -284,8 +291,28 @@ func (s *Server) send(c net.Conn, id int, full bool, from int, psync bool) {
 	pos := 0
 	fi := 0
 	streamStart := len(head)
+	gated := full && s.sc.RdbGate != nil
+	if gated {
+		s.emit(Event{Kind: "rdb-start", Conn: id})
+		stop := streamStart - len(s.sc.RDB) + s.sc.RdbGateAt
+		if _, err := c.Write(all[:stop]); err != nil {
+			return
+		}
+		pos = stop
+		<-s.sc.RdbGate
+	}
 	for pos < len(all) {
 		n := len(all) - pos
+		if gated && pos < streamStart {
+			// the rest of the RDB in one write of its own; "rdb-end" is reported BEFORE that write: the replica cannot
+			// have finished its full synchronisation before the event, whatever the scheduling of the two processes
+			s.emit(Event{Kind: "rdb-end", Conn: id})
+			if _, err := c.Write(all[pos:streamStart]); err != nil {
+				return
+			}
+			pos = streamStart
+			continue
+		}
 		if len(s.sc.Frags) > 0 {
 			f := s.sc.Frags[fi%len(s.sc.Frags)]
 			fi++
